@@ -80,6 +80,14 @@ def run(tier, replay=None):
         rr = os.path.join(d, "runs.ndjson")
         nrand, maxc = (300, 3000) if tier == "quick" else (8000, 6000)
         vlib.sh([sexe, "rand", str(vlib.seed()), str(nrand), str(maxc), rr], check=True, timeout=6000)
+        # enumerated short sequences (see C02): registered flags, fetch buffers and the like show only between instructions
+        PAIRS, BARE, TOTAL = 8 * 8 * 18 * 18, 18 ** 3, 8 * 8 * 18 * 18 + 18 ** 3 + 8 * 8 * 18 ** 3
+        s1 = os.path.join(d, "seqs1.ndjson"); s2 = os.path.join(d, "seqs2.ndjson")
+        vlib.sh([sexe, "seqs", "0", str(PAIRS + BARE), "1", "200", s1], check=True, timeout=6000)
+        vlib.sh([sexe, "seqs", str(PAIRS + BARE + vlib.seed() % 37), str(TOTAL), "37" if tier == "quick" else "1", "200", s2], check=True, timeout=20000)
+        with open(rr, "a") as f:
+            f.write(open(s1).read()); f.write(open(s2).read())
+        chk.set("enumerated_sequences", sum(1 for _ in open(s1)) + sum(1 for _ in open(s2)))
         progs = corpus.repo_binaries(d, with_xhexb=(tier != "quick"))
         limit = 100000 if tier == "quick" else 1500000
         for pid, binp, inp in progs:
@@ -95,7 +103,7 @@ def run(tier, replay=None):
                 if v["v"] == "recorder":
                     raise vlib.MachineryError("rtl_sys refused a defined instruction: %s" % v)
                 if v["v"] == "bad":
-                    chk.violation("run:%s:%s" % (v["id"] if not v["id"].startswith("rand") else "random-program", v["why"]),
+                    chk.violation("run:%s:%s" % ("sequence" if v["id"].startswith("seq") else v["id"] if not v["id"].startswith("rand") else "random-program", v["why"]),
                                   "processor+memory run %s diverges from the ISA at clock %d: %s" % (v["id"], v["at"], v["why"]), {"run.ndjson": src[i] + "\n"})
         # the longest program at hand on the RTL: the xhexb compiler (tests/x/xhexb.x compiled by xcmp) compiling a source - a million
         # clocks and more, cut into segments judged independently (K clocks from a recorded state = K instructions of HexISA)
